@@ -330,7 +330,9 @@ MUTANTS += [
     B("c11-assignment-tuple-swapped", ["C11"], SV, "new_resource_solution.assignments.append((task_name, start, end))", "new_resource_solution.assignments.append((task_name, end, start))"),
     B("c11-resource-view-unfiltered", ["C11"], SV, "                if (\n                    start >= 0\n                    and end >= 0\n                    and (task_name, start, end) not in new_resource_solution.assignments\n                ):", "                if (\n                    (task_name, start, end) not in new_resource_solution.assignments\n                ):"),
     B("c11-task-view-threshold", ["C11"], SV, "resource_is_assigned = z3_sol[lower_bound].as_long() >= 0", "resource_is_assigned = z3_sol[lower_bound].as_long() >= 1"),
-    B("c11-end-time-from-start", ["C11"], SV, "                new_task_solution.end_time = (\n                    new_task_solution.start_time + new_task_solution.duration_time\n                )", "                new_task_solution.end_time = (\n                    new_task_solution.start_time + new_task_solution.start * self.problem.delta_time\n                )"),
+    B("c11-end-time-from-start", ["C11"], SV, "                    + (new_task_solution.end - new_task_solution.start)\n                    * self.problem.delta_time", "                    + new_task_solution.start\n                    * self.problem.delta_time"),
+    B("c11-end-time-from-the-declared-duration", ["C11"], SV, "                    + (new_task_solution.end - new_task_solution.start)\n                    * self.problem.delta_time", "                    + new_task_solution.duration\n                    * self.problem.delta_time"),
+    T("c11-twin-end-time-from-the-end", ["C11"], SV, "                new_task_solution.end_time = (\n                    new_task_solution.start_time\n                    + (new_task_solution.end - new_task_solution.start)\n                    * self.problem.delta_time\n                )", "                new_task_solution.end_time = (\n                    new_task_solution.start_time - new_task_solution.start * self.problem.delta_time\n                    + new_task_solution.end * self.problem.delta_time\n                )"),
     B("c11-start-time-ignores-origin", ["C11"], SV, "                        self.problem.start_time\n                        + new_task_solution.start * self.problem.delta_time", "                        new_task_solution.start * self.problem.delta_time"),
     B("c11-horizon-from-task", ["C11"], SV, "            solution.horizon = z3_sol[self.problem._horizon].as_long()", "            solution.horizon = 0"),
     B("c11-horizon-ignores-user-value", ["C11"], SV, "            solution.horizon = self.problem.horizon\n", "            solution.horizon = self.problem.horizon - 1\n"),
@@ -865,4 +867,17 @@ MUTANTS += [
     T("c16-repaired-export-asserts-the-tracking-labels", ["C16"], SV,
       "            if isinstance(self._solver, z3.Optimize):\n                # z3.Optimize has no to_smt2 method\n                outfile.write(self._solver.sexpr())\n            else:\n                outfile.write(self._solver.to_smt2())",
       "            if isinstance(self._solver, z3.Optimize):\n                # z3.Optimize has no to_smt2 method\n                text = self._solver.sexpr()\n            else:\n                text = self._solver.to_smt2()\n            if self.debug:\n                labels = \"\".join(f\"(assert {label})\\n\" for label in self._tracked_labels)\n                text = text.replace(\"(check-sat)\", labels + \"(check-sat)\")\n            outfile.write(text)"),
+]
+
+MUTANTS += [
+    # ---- next to the repairs made after the defect hunt ----
+    B("c07-only-the-upper-indicator-bound-asserted", ["C07", "C15"], IND,
+      "            if lower_bound is not None:\n                self.append_z3_assertion(self._indicator_variable >= lower_bound)\n", ""),
+    B("c04-same-workers-second-side-left-free", ["C04"], RC,
+      "        for res_work_2 in self.select_workers_2._selection_dict:\n            if res_work_2 not in self.select_workers_1._selection_dict:\n                self.set_z3_assertions(\n                    z3.Not(self.select_workers_2._selection_dict[res_work_2])\n                )\n", ""),
+    B("c17-calendar-ticks-through-pyplot", ["C17"], PL,
+      "        gantt_chart.set_xticks(range(solution.horizon + 1))\n        gantt_chart.set_xticklabels(times_str, rotation=60)\n",
+      "        plt.xticks(range(solution.horizon + 1), times_str, rotation=60)\n"),
+    B("c18-sorter-chain-for-a-single-value", ["C18"], UT,
+      "    if n > 1:\n        constraints.append(z3.And([a[i] < a[i + 1] for i in range(n - 1)]))", "    if n > 0:\n        constraints.append(z3.And([a[i] < a[i + 1] for i in range(n - 1)]))"),
 ]
